@@ -24,8 +24,7 @@ def run(tier, seed, verdict):
             "inline_items", "tuel_items", "trampoline_items", "subsched_items", "loop_done_stop_before_start",
             "stc_fifo_checked"]
     missing = [k for k in need if not st.get(k)]
-    if missing:
-        raise core.HarnessFailure("scheduler stress observed none of: %s" % missing)
+    core.require_observed(verdict, missing, "scheduler stress")
     cov = {
         "evaluations": st.get("items_total", 0),
         "distinct_nontrivial": sum(1 for k, v in st.items() if v) + sum(1 for v in res.hooks.values() if v),
